@@ -111,6 +111,8 @@ def check_hier(case, rec):
     kind = case["kind"]
     lk = dict(method=case["method"], optimal_ordering=case["optimal_ordering"])
     ck = dict(t=case["t"], criterion=case["criterion"])
+    if case.get("omit_criterion"):
+        ck = dict(t=case["t"])            # SciPy's own default criterion applies
     if kind == "strings":
         items = case["seqs"]
         obj = G.materialise(items, case.get("container", "list"))
@@ -222,6 +224,10 @@ def graph_case(draw, tier="quick"):
         # isolated nodes: far from everything else
         seqs = list(seqs) + ["W" * 14, "Y" * 17][: draw(st.integers(1, 2))]
         seqs = list(draw(st.permutations(seqs)))
+    if draw(st.integers(0, 2)) == 0:
+        # a group of identical sequences with no other neighbour (their only edges are distance-0 edges)
+        seqs = list(seqs) + ["HHHHHHHHHHKKKKKK"] * draw(st.integers(2, 3))
+        seqs = list(draw(st.permutations(seqs)))
     if draw(st.integers(0, 5)) == 0:
         # no neighbour at all: pairwise far-apart sequences
         seqs = [c * (3 + 3 * i) for i, c in enumerate("ACDEF"[:draw(st.integers(1, 5))])]
@@ -257,6 +263,7 @@ def hier_case(draw, tier="quick"):
         case["rows"] = [[fa[i], fb[i]] for i in range(n)]
         case["cols"] = draw(st.sampled_from(["A", "B", "AB"]))
         case["index"] = draw(st.sampled_from(["default", "str", "rev", "dup"]))
+    case["omit_criterion"] = draw(st.integers(0, 3)) == 0
     if draw(st.booleans()):
         case["metrics"] = draw(st.lists(st.sampled_from([[1, 1, 1], [1, 1, 2], [2, 1, 1], [1, 3, 1], [3, 2, 2]]), min_size=2, max_size=3))
     return case
